@@ -11,7 +11,7 @@ import glob, json, os, re, shutil, sys
 FIRST = {}
 SRC = "/tmp/seed-out"
 DST = "/verif/seeded"
-ROUND = {"1": "r1", "2": "r2", "3": "r2b", "4": "r3", "5": "r4", "6": "r5", "7": "r6", "8": "r7", "9": "r8"}
+ROUND = {"1": "r1", "2": "r2", "3": "r2b", "4": "r3", "5": "r4", "6": "r5", "7": "r6", "8": "r7", "9": "r8", "10": "r9"}
 
 
 def main():
@@ -23,7 +23,7 @@ def main():
         FIRST = {}
     for d in sorted(glob.glob(os.path.join(SRC, "C*-*"))):
         base = os.path.basename(d)
-        m = re.fullmatch(r"(C\d+)-(\d)", base)
+        m = re.fullmatch(r"(C\d+)-(\d+)", base)
         if not m:
             continue
         pid, rnd = m.group(1), ROUND.get(m.group(2), "r" + m.group(2))
